@@ -27,6 +27,7 @@ const rtPath = "github.com/projecteru2/core/verifrt"
 type report struct {
 	Rewritten   int      `json:"rewritten"`
 	Ticks       int      `json:"ticks_inserted"`
+	RollbackMarks int    `json:"rollback_marks"`
 	Files       int      `json:"files"`
 	Unrewritten []string `json:"unrewritten_map_ranges"`
 }
@@ -68,6 +69,11 @@ func main() {
 				continue
 			}
 			ticks := 0
+			if strings.HasSuffix(p.PkgPath, "/core/utils") && strings.HasSuffix(name, "/utils/transaction.go") {
+				m := markRollback(f)
+				rep.RollbackMarks += m
+				ticks += m
+			}
 			if strings.Contains(p.PkgPath, "resource/plugins/cpumem") {
 				ticks = insertTicks(f)
 				rep.Ticks += ticks
@@ -92,12 +98,41 @@ func main() {
 			rep.Files++
 		}
 	}
+	if rep.RollbackMarks != 1 {
+		fmt.Fprintf(os.Stderr, "maporder: expected exactly one rollback call in utils.Txn, found %d: cannot mark compensating steps\n", rep.RollbackMarks)
+		os.Exit(2)
+	}
 	sort.Strings(rep.Unrewritten)
 	out, _ := json.MarshalIndent(rep, "", " ")
 	if len(os.Args) > 2 {
 		_ = os.WriteFile(os.Args[2], out, 0o644)
 	}
 	fmt.Println(string(out))
+}
+
+// markRollback wraps the context handed to the rollback step of utils.Txn:
+// rollback(ctx, x) becomes rollback(verifrt.MarkRollback(ctx), x), so that the simulator
+// can tell compensating steps (never failed by injection) from primary steps.
+func markRollback(f *ast.File) int {
+	n := 0
+	for _, d := range f.Decls {
+		fd, ok := d.(*ast.FuncDecl)
+		if !ok || fd.Name.Name != "Txn" || fd.Body == nil {
+			continue
+		}
+		ast.Inspect(fd.Body, func(nd ast.Node) bool {
+			ce, ok := nd.(*ast.CallExpr)
+			if !ok {
+				return true
+			}
+			if id, ok := ce.Fun.(*ast.Ident); ok && id.Name == "rollback" && len(ce.Args) == 2 {
+				ce.Args[0] = &ast.CallExpr{Fun: sel("verifrt", "MarkRollback"), Args: []ast.Expr{ce.Args[0]}}
+				n++
+			}
+			return true
+		})
+	}
+	return n
 }
 
 // insertTicks prepends verifrt.DoTick() to every loop body (bounded-step liveness of pure CPU loops).
@@ -266,6 +301,9 @@ func rewriteFile(p *packages.Package, f *ast.File, name string, rep *report) int
 	})
 	if n > 0 {
 		astutil.AddImport(p.Fset, f, rtPath)
+		if !astutil.UsesImport(f, "golang.org/x/exp/maps") {
+			astutil.DeleteImport(p.Fset, f, "golang.org/x/exp/maps")
+		}
 	}
 	return n
 }
